@@ -35,44 +35,39 @@ end C23
 
 open C23
 
-/-- The source still has the shape the model transcribes: the order of the checks, the tuples of root
-classes each `issubclass` test uses, how the two DFS runs are seeded, the `_dfs` body, the three skip
-guards, and the shape of the returned flag (two `any(issubclass(..))` tests).  Regenerated from `/repo`
-on every run. -/
+/-- The source still has the shape the model transcribes: the order of the checks in `_validate_workflow`
+and in `Workflow.__init__`, the tuple of root classes each `issubclass` test uses, which set difference each
+boundary tuple filters, how the two DFS runs are seeded, which reachable set each graph check reads, the three
+skip guards and the per-step skip names, the order inside the handler collection, and the shape of the
+returned flag (two `any(issubclass(..))` tests).  Regenerated from `/repo` on every run; independent of the
+names of local variables. -/
 theorem C23_source_shape :
     Gen.C23.emptyCheckedFirst = true ∧
     Gen.C23.checkOrder = ["_ensure_start_event_class", "_ensure_stop_event_class", "_validate_event_connectivity",
       "_collect_catch_error_handlers", "validate_graph"] ∧
     Gen.C23.initOrder = ["_ensure_start_event_class", "_ensure_stop_event_class", "raise-unknown-check"] ∧
-    (Gen.C23.startRoots, Gen.C23.startScans) = ([cStart], ["accepted_events"]) ∧
-    (Gen.C23.stopRoots, Gen.C23.stopScans) = ([cStop], ["return_types"]) ∧
-    Gen.C23.startTests = ["issubclass(event_type, StartEvent)", "num_found == 0", "num_found > 1"] ∧
-    Gen.C23.stopTests = ["issubclass(event_type, StopEvent)", "num_found == 0", "num_found > 1"] ∧
+    (Gen.C23.startRoots, Gen.C23.startScans, Gen.C23.startCounts) = ([cStart], ["accepted_events"], ["Eq 0", "Gt 1"]) ∧
+    (Gen.C23.stopRoots, Gen.C23.stopScans, Gen.C23.stopCounts) = ([cStop], ["return_types"], ["Eq 0", "Gt 1"]) ∧
     Gen.C23.acceptStopRoots = [cStop] ∧
     Gen.C23.consumedBoundary = [cInputRequired, cHumanResponse, cStop, cStepFailed] ∧
     Gen.C23.producedBoundary = [cInputRequired, cHumanResponse, cStop] ∧
-    Gen.C23.connectivityDiffs = ["consumed_events - produced_events", "produced_events - consumed_events"] ∧
-    Gen.C23.connectivityFilters = ["not issubclass(x,", "not issubclass(x,"] ∧
-    Gen.C23.connectivityInit = ["{start_event_class}", "set()"] ∧
-    Gen.C23.connectivityRaises = ["steps_accepting_stop_event", "unconsumed_events", "unused_events"] ∧
-    Gen.C23.producedSkipsNone = true ∧
+    Gen.C23.connectivityRaises = ["acceptsStop", "consumedNotProduced", "producedNotConsumed"] ∧
+    Gen.C23.producedStartsWithStart = true ∧ Gen.C23.consumedStartsEmpty = true ∧ Gen.C23.producedSkipsNone = true ∧
     Gen.C23.hitlShapeKnown = true ∧
     Gen.C23.hitlTerms = [(true, cInputRequired, true), (true, cHumanResponse, false)] ∧
-    Gen.C23.seedRoots = [cHumanResponse] ∧ Gen.C23.seedsInit = "[start_event_class]" ∧
+    Gen.C23.seedRoots = [cHumanResponse] ∧ Gen.C23.seedsStartWithStart = true ∧ Gen.C23.handlersAreSeeds = true ∧
     Gen.C23.outputRoots = [cStop, cInputRequired] ∧ Gen.C23.terminalRoots = [cStop, cInputRequired] ∧
-    Gen.C23.dfsCalls = ["_dfs(seeds, outgoing)", "_dfs(output_seeds, incoming)"] ∧
-    Gen.C23.dfsBody = ["visited: set[GraphNode] = set()", "stack = list(seeds)",
-      "while stack:\n    node = stack.pop()\n    if node in visited:\n        continue\n    visited.add(node)\n    for target in adjacency.get(node, []):\n        if target not in visited:\n            stack.append(target)",
-      "return visited"] ∧
+    Gen.C23.dfsRuns = 2 ∧
     Gen.C23.graphGuards = ["reachability", "terminal_event", "dead_end"] ∧
-    Gen.C23.graphErrorTests = ["unreachable_steps", "dangling", "dead_end_steps"] ∧
     (Gen.C23.stepSkipIn_reachability, Gen.C23.stepSkipIn_terminal_event, Gen.C23.stepSkipIn_dead_end) =
       (["reachability"], [], ["dead_end"]) ∧
-    Gen.C23.handlerRaises = ["not isinstance(max_recoveries, int) or max_recoveries < 1", "handler_errors"] ∧
+    (Gen.C23.reachSetIn_reachability, Gen.C23.reachSetIn_terminal_event, Gen.C23.reachSetIn_dead_end) =
+      (["forward_reachable"], [], ["reverse_reachable"]) ∧
+    Gen.C23.handlerBudgetCheckedFirst = true ∧ Gen.C23.handlerBudgetTest = ["Lt 1"] ∧
     Gen.C23.workflowGraphChecks = ["reachability", "terminal_event", "dead_end"] ∧
     Gen.C23.stepGraphChecks = ["reachability", "dead_end"] ∧
-    Gen.C23.validateCall = ["_validate_workflow(step_configs, self.__class__.__name__, self._skip_graph_checks)"] ∧
-    Gen.C23.validateReturns = ["result.uses_hitl"] := by decide +kernel
+    Gen.C23.validateSkipArg = ["self._skip_graph_checks"] ∧
+    Gen.C23.validateReturns = ["uses_hitl"] := by decide +kernel
 
 /-- `_dfs` computes exactly reachability: for every edge list (any graph, any adjacency order) and every
 seed list, a node is in the returned set iff it is reachable from some seed through the reflexive-transitive
